@@ -111,6 +111,24 @@ pub fn escape_cdata(value: &str) -> String {
     value.replace("]]>", "]]]]><![CDATA[>")
 }
 
+/// Escapes a string for the usage as attribute value inside double quotes.
+/// White space other than spaces is escaped as well because XML parsers normalize it in attributes.
+pub fn escape_attribute(value: &str) -> String {
+    let mut escaped = String::with_capacity(value.len());
+    for c in value.chars() {
+        match c {
+            '&' => escaped += "&amp;",
+            '<' => escaped += "&lt;",
+            '"' => escaped += "&quot;",
+            '\t' => escaped += "&#9;",
+            '\n' => escaped += "&#10;",
+            '\r' => escaped += "&#13;",
+            _ => escaped.push(c),
+        }
+    }
+    escaped
+}
+
 pub fn gen_float<T: Display>(tag_name: &str, value: T) -> String {
     format!("<{tag_name} type=\"Float\">{value}</{tag_name}>\n")
 }
